@@ -143,16 +143,29 @@ type twEnv struct {
 	defers []*ast.FuncLit
 }
 
+// equivalent spellings of the option tests (so that a harmless rewrite does not break the tie)
 var twConds = map[string]string{
 	"len(o.ipFile) == 0":     "CNoFile",
+	`o.ipFile == ""`:         "CNoFile",
+	"len(o.ipFile) < 1":      "CNoFile",
 	"len(o.ipFile) > 0":      "CHasFile",
+	"len(o.ipFile) != 0":     "CHasFile",
+	`o.ipFile != ""`:         "CHasFile",
 	"len(o.portRanges) == 0": "CNoPorts",
+	"len(o.portRanges) < 1":  "CNoPorts",
 	"o.excludeIPs != nil":    "CExclude",
+	"nil != o.excludeIPs":    "CExclude",
 	"o.cache != nil":         "CCache",
+	"nil != o.cache":         "CCache",
 	"o.liveTimeout > 0":      "CLive",
+	"o.liveTimeout != 0":     "CLive",
+	"0 < o.liveTimeout":      "CLive",
 }
 
 func (e *twEnv) cond(x ast.Expr) string {
+	if p, ok := x.(*ast.ParenExpr); ok {
+		return e.cond(p.X)
+	}
 	t := twText(e.c.p, x)
 	if c, ok := twConds[t]; ok {
 		return c
